@@ -639,4 +639,11 @@ func c03(c *ctx) {
 	}
 	c03wakeups(c)
 	c.o.sample("exhaustive: A writes 3 bytes + closes; frames on conns [0 2 1]; order [closing, 1, 0] -> B reads block, …, data, broken only after all 3 bytes")
+	nrf := 24
+	if c.thorough() {
+		nrf = 300
+	}
+	for k := 0; k < nrf; k++ {
+		c03readFrom(c, k)
+	}
 }
